@@ -8,7 +8,9 @@ Every step of every thread strictly decreases `meas`, a weighted count of the wo
 * a chunk on the work queue weighs 33, a chunk in a worker's hands or an item on the result queue 20;
 * the feeder, the replace thread, every worker and the consumer weigh the number of steps to the end of their current
   round (`fOff`, `rOff`, `wOff`, `pos`); a retired worker's id waiting for the replace thread weighs 7 (three steps of
-  the replace thread, four of the successor). -/
+  the replace thread, four of the successor);
+* every call in which nothing has been emitted yet carries `procs.length + 1` for the mid-call `until_all_ready()`
+  (`midB`; one wait per slot of `procs` and the step back into the result loop). -/
 namespace WindVerif.Pool
 
 def someCount (q : List (Option Nat)) : Nat := (q.filter Option.isSome).length
@@ -110,11 +112,17 @@ def pos (c : CPc) (fresh : Bool) (n : Nat) : Nat :=
   | .rJoin => 2 * n + 2 + 12
   | .exitPut i => (n - i) + n + 1
   | .exitJoin i => n - i
+  | .midReady i _ => 2 * n + 2 + 28 + (n - i)
   | .done => 0
 
 def fresh (s : St) : Bool := s.batch.isEmpty && !s.woken
 
-def mC (s : St) : Nat := futW s + 40 * s.callsLeft.length + pos s.cpc (fresh s) s.procs.length
+/-- room for the mid-call `until_all_ready()`: at most one per call (it follows the first emission: `finished` leaves 0),
+`procs.length` waits and the step back into the loop -/
+def midB (s : St) : Nat :=
+  (s.procs.length + 1) * (s.callsLeft.length + (if s.cur.isSome ∧ s.finished = 0 then 1 else 0))
+
+def mC (s : St) : Nat := futW s + 40 * s.callsLeft.length + pos s.cpc (fresh s) s.procs.length + midB s
 
 def meas (s : St) : Nat := mC s + mF s + mW s + mR s + mQ s
 
